@@ -308,6 +308,9 @@ func Scale(a *Term, k *big.Rat) *Term {
 	return l.build(a.Sort)
 }
 
+// maxDistribute bounds the size of sums that products are distributed over.
+const maxDistribute = 48
+
 func Mul(a, b *Term) *Term {
 	s := sortOf(a, b)
 	a, b = coerce(a, s), coerce(b, s)
@@ -317,9 +320,62 @@ func Mul(a, b *Term) *Term {
 	if b.Op == OConst {
 		return Scale(a, b.Rat)
 	}
-	// distribute a constant factor out of single-term sums: (k*x)*(j*y) = kj*(x*y)
+	// distribute over sums so that polynomials reach a normal form
+	aSum := a.Op == OSum && (len(a.Args) > 1 || a.Rat.Sign() != 0)
+	bSum := b.Op == OSum && (len(b.Args) > 1 || b.Rat.Sign() != 0)
+	if (aSum || bSum) && len(a.Args)*len(b.Args) <= maxDistribute && s == Real {
+		l := newLin()
+		type mono struct {
+			k *big.Rat
+			t *Term // nil = constant 1
+		}
+		monos := func(t *Term) []mono {
+			if t.Op != OSum {
+				return []mono{{rat1, t}}
+			}
+			var ms []mono
+			if t.Rat.Sign() != 0 {
+				ms = append(ms, mono{t.Rat, nil})
+			}
+			for i, x := range t.Args {
+				ms = append(ms, mono{t.Coef[i], x})
+			}
+			return ms
+		}
+		for _, ma := range monos(a) {
+			for _, mb := range monos(b) {
+				k := new(big.Rat).Mul(ma.k, mb.k)
+				switch {
+				case ma.t == nil && mb.t == nil:
+					l.c.Add(l.c, k)
+				case ma.t == nil:
+					l.add(mb.t, k)
+				case mb.t == nil:
+					l.add(ma.t, k)
+				default:
+					l.add(mulMono(ma.t, mb.t, s), k)
+				}
+			}
+		}
+		return l.build(s)
+	}
 	ka, xa := splitCoef(a)
 	kb, xb := splitCoef(b)
+	return Scale(mulMono(xa, xb, s), new(big.Rat).Mul(ka, kb))
+}
+
+func nonZero(t *Term) bool {
+	if t.Op == OToReal {
+		t = t.Args[0]
+	}
+	if t.Op == OConst {
+		return t.Rat.Sign() != 0
+	}
+	return t.Sort == Int && (t.Lo != nil && t.Lo.Sign() > 0 || t.Hi != nil && t.Hi.Sign() < 0)
+}
+
+// mulMono multiplies two non-sum terms (monomials), cancelling x * (n/x).
+func mulMono(xa, xb *Term, s Sort) *Term {
 	var fs []*Term
 	for _, x := range []*Term{xa, xb} {
 		if x.Op == OMul {
@@ -328,13 +384,59 @@ func Mul(a, b *Term) *Term {
 			fs = append(fs, x)
 		}
 	}
-	sort.Slice(fs, func(i, j int) bool { return fs[i].ID < fs[j].ID })
-	t := &Term{Op: OMul, Sort: s, Args: fs}
-	if s == Int {
-		t.Lo, t.Hi = mulBounds(fs)
+	// cancellation of (n / d) * d  when d is known to be non-zero
+	changed := true
+	var extra *Term
+	for changed {
+		changed = false
+		for i, f := range fs {
+			if f.Op != ORDiv || !nonZero(f.Args[1]) {
+				continue
+			}
+			for j, g := range fs {
+				if i != j && g == f.Args[1] {
+					num := f.Args[0]
+					var rest []*Term
+					for k2, h := range fs {
+						if k2 != i && k2 != j {
+							rest = append(rest, h)
+						}
+					}
+					fs = rest
+					if !(num.Op == OConst && num.Rat.Cmp(rat1) == 0) {
+						if extra == nil {
+							extra = num
+						} else {
+							extra = Mul(extra, num)
+						}
+					}
+					changed = true
+					break
+				}
+			}
+			if changed {
+				break
+			}
+		}
 	}
-	p := intern(t)
-	return Scale(p, new(big.Rat).Mul(ka, kb))
+	var p *Term
+	switch len(fs) {
+	case 0:
+		p = numC(s, rat1)
+	case 1:
+		p = fs[0]
+	default:
+		sort.Slice(fs, func(i, j int) bool { return fs[i].ID < fs[j].ID })
+		t := &Term{Op: OMul, Sort: s, Args: fs}
+		if s == Int {
+			t.Lo, t.Hi = mulBounds(fs)
+		}
+		p = intern(t)
+	}
+	if extra != nil {
+		return Mul(p, extra)
+	}
+	return p
 }
 
 func splitCoef(t *Term) (*big.Rat, *Term) {
@@ -407,7 +509,12 @@ func RDiv(a, b *Term) *Term {
 	if a.Op == OConst && a.Rat.Sign() == 0 {
 		return a
 	}
-	return intern(&Term{Op: ORDiv, Sort: Real, Args: []*Term{a, b}})
+	one := RealC(rat1)
+	inv := intern(&Term{Op: ORDiv, Sort: Real, Args: []*Term{one, b}})
+	if a == one {
+		return inv
+	}
+	return Mul(a, inv)
 }
 
 func euclid(a, b *big.Int) (q, m *big.Int) {
